@@ -439,6 +439,30 @@ func (p *c07) Run(c *verifsim.Chooser, st *Stats, render bool) *Outcome {
 		if r.SetVar != "" {
 			L.e.SetVariable(r.SetVar, r.SetVal)
 		}
+		if mode == 0 && i > 0 && c.Intn(8) == 1 {
+			// the host's user edits the filter: the new text goes into the
+			// exported Script field of the much-used evaluator, which is
+			// prepared again; from here on "fresh" means a new evaluator for
+			// the new text
+			nt, how := editedScript(c, text)
+			L.e.Script = nt
+			err, esc := doPrepare(L.e, opt)
+			if render {
+				hist = append(hist, map[string]interface{}{"edit": how, "new_script": nt, "prepare": fmt.Sprint(err, esc)})
+			}
+			if err != nil || esc != nil {
+				// (whether a failed Prepare leaves the evaluator usable is C08's
+				// business; the history ends here)
+				st.probe("edit-did-not-prepare")
+				break
+			}
+			st.fault("script-edited@main")
+			text = nt
+			globals, scoped = analyseNames(text)
+			globals = append(globals, "g0", "g1", "g2", "g3")
+			all = append(append([]string{}, globals...), scoped...)
+			lastFault, lastWhere = "script-edit", "main"
+		}
 		snap := takeSnapshot(L.e, globals)
 		F, ferr, fesc := newSide(text, opt)
 		if ferr != nil || fesc != nil {
